@@ -158,6 +158,12 @@ def norm_result(value):
     return repr(value)
 
 
+def _start(op):
+    """Start vertices reach the library as Python ints or, as in experiments/ (numpy.random.choice(vertices)), as
+    numpy integers."""
+    return numpy.int64(op["start"]) if op.get("np_start") else op["start"]
+
+
 def build_filter(dsw, cfg):
     return dsw.LocalBioFilter(observed_length=cfg["k"], max_homopolymer_runs=cfg["runs"], gc_range=cfg["gc"],
                               undesired_motifs=cfg["motifs"])
@@ -282,7 +288,7 @@ def op_write(op, world, ctx):
         return {"out": {"kind": "skipped"}, "res": None}
     bits, L, fast = op["bits"], len(op["bits"]), op["fast"]
     table = table_from_digits(op["table"], design.k) if op.get("table") else None
-    kwargs = dict(binary_message=bits_array(bits), accessor=design.accessor(world.proxy), start_index=op["start"],
+    kwargs = dict(binary_message=bits_array(bits), accessor=design.accessor(world.proxy), start_index=_start(op),
                   is_faster=fast, vt_length=op.get("vt", 0), shuffles=table)
     nlive = len(design.live)
     row_bound, jumps = encode_bounds(L, nlive)
@@ -396,7 +402,7 @@ def read_decode(op, world, design, ctx):
     dsw, read, fast = world.dsw, op["read"], op.get("fast", False)
     table = table_from_digits(op["table"], design.k) if op.get("table") else None
     kwargs = dict(dna_sequence=read, bit_length=op["bit_length"], accessor=design.accessor(world.proxy),
-                  start_index=op["start"], is_faster=fast, vt_check=op.get("check"), shuffles=table)
+                  start_index=_start(op), is_faster=fast, vt_check=op.get("check"), shuffles=table)
     ctx.stats.lib_calls += 1
     out = budgeted(dsw.decode, kwargs, decode_budget(len(read), op["bit_length"]) * ctx.budget_scale)
     rec = {"out": out.brief(), "res": sha(norm_result(out.value))[:16] if out.kind == "returned" else None}
@@ -481,7 +487,7 @@ def read_repair(op, world, design, ctx):
     heap = op.get("heap", 1000)
     if heap == "inf":
         heap = float("inf")      # the natural way to ask for an unrestrictive limit
-    kwargs = dict(dna_sequence=read, accessor=design.accessor(world.proxy), start_index=op["start"],
+    kwargs = dict(dna_sequence=read, accessor=design.accessor(world.proxy), start_index=_start(op),
                   observed_length=k, vt_check=op.get("check"), has_indel=op.get("has_indel", False), heap_size=heap)
     row_bound, jumps = repair_bounds(len(read), k, 1000 if heap == float("inf") else heap)
     ctx.stats.lib_calls += 1
